@@ -104,6 +104,15 @@ impl SendBuffer {
     /// SendBuffer::wf && rwf of unit send_buffer
     pub open spec fn ok(&self) -> bool { self.g@.3 && self.base() + self.stored().len() == self.end() && self.end() < 0x4000_0000_0000_0000 }
     pub fn unacked(&self) -> (r: u64) ensures r == self.un { self.un }
+    /// everything written has been acknowledged (vacuously true for a stream nothing was written on)
+    pub uninterp spec fn fully_acked(&self) -> bool;
+    #[verifier::external_body] pub fn is_fully_acked(&self) -> (r: bool) ensures r == self.fully_acked() { unimplemented!() }
+    /// the whole buffer is marked unsent again, so that the stream is transmitted from its first unacknowledged byte -- and its FIN
+    /// with the last frame -- once more (`unsent = 0`)
+    pub uninterp spec fn resend_all(&self) -> bool;
+    #[verifier::external_body] pub fn retransmit_all_for_0rtt(&mut self)
+        ensures final(self).resend_all(), final(self).un == old(self).un, final(self).g@ == old(self).g@, final(self).fully_acked() == old(self).fully_acked()
+    { unimplemented!() }
     #[verifier::external_body] pub fn offset(&self) -> (r: u64) ensures r == self.end() { unimplemented!() }
     #[verifier::external_body] pub fn poll_transmit(&mut self, max_len: usize) -> (res: (Range<u64>, bool))
         requires old(self).ok(), max_len >= 8 + 8 + 1
@@ -257,7 +266,8 @@ pub fn send_get<'a>(m: &'a mut FxHashMap<super::code::StreamId, Option<Box<Send>
     ensures match r {
         Some(st) => st.pending.ok() && send_abs(*old(m), id) == Some(*st) && send_abs(*final(m), id) == Some(*final(st))
             && forall|o: super::code::StreamId| o != id ==> send_abs(*final(m), o) == send_abs(*old(m), o),
-        None => *final(m) == *old(m),
+        // no entry, or a send half nothing has been done with yet (it is materialised on first use: Ready, nothing written, no FIN)
+        None => *final(m) == *old(m) && (send_abs(*old(m), id) matches Some(s) ==> s.state is Ready && s.pending.fully_acked() && !s.fin_pending),
     }
 { unimplemented!() }
 /// concatenation of frame images
@@ -545,6 +555,15 @@ impl StreamId {
 //@ extract quinn-proto/src/connection/streams/state.rs :: struct StreamsState
 //@ end
 
+/// stream `id`, if it has a materialised send half on which something was sent (bytes not yet acknowledged, a FIN still to send, or a
+/// FIN already sent: state DataSent), is marked for transmission from the start again and otherwise untouched
+pub open spec fn resent(m0: FxHashMap<StreamId, Option<Box<Send>>>, m1: FxHashMap<StreamId, Option<Box<Send>>>, id: StreamId) -> bool {
+    match send_abs(m0, id) {
+        Some(s0) => (s0.state is DataSent || !s0.pending.fully_acked() || s0.fin_pending) ==>
+            (send_abs(m1, id) matches Some(s1) && s1.pending.resend_all() && s1.state == s0.state && s1.fin_pending == s0.fin_pending && s1.pending.g@ == s0.pending.g@),
+        None => true,
+    }
+}
 pub open spec fn sat_sub(a: u64, b: u64) -> u64 { if a >= b { (a - b) as u64 } else { 0 } }
 pub open spec fn sat_add(a: u64, b: u64) -> u64 { if a + b > u64::MAX { u64::MAX } else { (a + b) as u64 } }
 pub open spec fn di(d: Dir) -> int { d as int }
@@ -867,6 +886,37 @@ impl StreamsState {
                         StreamId::lemma_new_distinct(self.side, d2, k, dir, i);
                     }
                 }
+//@ end
+//@ extract quinn-proto/src/connection/streams/state.rs :: impl StreamsState::fn retransmit_all_for_0rtt
+//@ props C01
+//@ replace self.send.get_mut(&id).and_then(|s| s.as_mut()) => send_get(&mut self.send, id)
+//@ replace Dir::iter() => dir_iter()
+//@ loop-iter 0 od
+//@ loop 0
+            invariant
+                od.seq() == seq![Dir::Bi, Dir::Uni], self.next == old(self).next, self.next[0] <= 0x1000_0000_0000_0000, self.next[1] <= 0x1000_0000_0000_0000,
+                forall|j: int, k: u64| 0 <= j < od.index@ && k < self.next[di(od.seq()[j])] ==> resent(old(self).send, self.send, #[trigger] StreamId::spec_new(Side::Client, od.seq()[j], k)),
+                forall|j: int, k: u64| od.index@ <= j < 2 && k < self.next[di(od.seq()[j])] ==> send_abs(self.send, #[trigger] StreamId::spec_new(Side::Client, od.seq()[j], k)) == send_abs(old(self).send, StreamId::spec_new(Side::Client, od.seq()[j], k)),
+//@ loop 1
+                invariant
+                    self.next == old(self).next, self.next[0] <= 0x1000_0000_0000_0000, self.next[1] <= 0x1000_0000_0000_0000,
+                    od.seq() == seq![Dir::Bi, Dir::Uni], dir == od.seq()[od.index@], 0 <= od.index@ < 2,
+                    forall|j: int, k: u64| 0 <= j < od.index@ && k < self.next[di(od.seq()[j])] ==> resent(old(self).send, self.send, #[trigger] StreamId::spec_new(Side::Client, od.seq()[j], k)),
+                    forall|k: u64| k < index ==> resent(old(self).send, self.send, #[trigger] StreamId::spec_new(Side::Client, dir, k)),
+                    forall|k: u64| index <= k < self.next[di(dir)] ==> send_abs(self.send, #[trigger] StreamId::spec_new(Side::Client, dir, k)) == send_abs(old(self).send, StreamId::spec_new(Side::Client, dir, k)),
+                    forall|j: int, k: u64| od.index@ < j < 2 && k < self.next[di(od.seq()[j])] ==> send_abs(self.send, #[trigger] StreamId::spec_new(Side::Client, od.seq()[j], k)) == send_abs(old(self).send, StreamId::spec_new(Side::Client, od.seq()[j], k)),
+//@ after let id = StreamId::new(Side::Client, dir, index);
+                proof {
+                    assert forall|d2: Dir, k: u64| (d2 != dir || k != index) && k < 0x4000_0000_0000_0000 implies #[trigger] StreamId::spec_new(Side::Client, d2, k) != id by {
+                        StreamId::lemma_new_distinct(Side::Client, d2, k, dir, index);
+                    }
+                }
+//@ contract
+        requires old(self).next[0] <= 0x1000_0000_0000_0000, old(self).next[1] <= 0x1000_0000_0000_0000,
+        ensures
+            // C01: after a Retry the 0-RTT packets are gone for good, so every stream on which anything was sent -- data, or just the FIN of
+            // an empty stream -- is transmitted again from the start
+            forall|d: Dir, k: u64| k < old(self).next[di(d)] ==> resent(old(self).send, final(self).send, #[trigger] StreamId::spec_new(Side::Client, d, k)),
 //@ end
 //@ extract quinn-proto/src/connection/streams/state.rs :: impl StreamsState::fn set_params
 //@ props C05
